@@ -192,8 +192,11 @@ def match_known(known, prop, v):
             continue
         if prop not in kf.get("properties", [kf.get("property")]):
             continue
+        import re
+        vid = re.sub(r"@L\d+", "", v["id"])
         for pat in kf.get("obligations", []):
-            if v["id"] == pat or (pat.endswith("*") and v["id"].startswith(pat[:-1])):
+            pat = re.sub(r"@L\d+", "", pat)       # line numbers move with unrelated edits; the rest of an id is stable
+            if vid == pat or (pat.endswith("*") and vid.startswith(pat[:-1])):
                 return kf
     return None
 
